@@ -37,6 +37,7 @@ func RecordSchema(r *rng.Rand, o FrontOpts) *spec.Node {
 	g.O.DefaultPct = 15
 	counter := 0
 	var mk func(depth int) *spec.Node
+	dashUsed := false
 	leaf := func() *spec.Node {
 		k := []spec.Kind{spec.String, spec.Int, spec.Float64, spec.Bool, spec.Time, spec.Int64, spec.String}[r.Intn(7)]
 		n := &spec.Node{Kind: k}
@@ -90,6 +91,11 @@ func RecordSchema(r *rng.Rand, o FrontOpts) *spec.Node {
 				f.Tags = map[string]string{"query": "q_" + lk}
 			case 5:
 				f.Tags = map[string]string{"zog": "z_" + lk, "env": "E_" + strings.ToUpper(lk)}
+			}
+			if !o.EnvOnly && !dashUsed && r.Intn(40) == 0 {
+				// "-" is a key like any other (one per schema: flat sources resolve nested fields against the same source)
+				dashUsed = true
+				f.Tags = map[string]string{"json": "-", "form": "-", "query": "-"}
 			}
 			if o.KeepIssuePath && r.Intn(12) == 0 {
 				// keys are arbitrary strings: dots, brackets and spaces inside a key must be kept verbatim in paths
@@ -174,6 +180,10 @@ func GenRecord(r *rng.Rand, n *spec.Node, validPct int, o FrontOpts) any {
 	}
 	if n.Kind == spec.Time && !o.Flat && r.Intn(8) == 0 {
 		if t, ok := n.Witness.(time.Time); ok {
+			if r.Intn(4) == 0 {
+				// a number of seconds is a number of seconds however large it is (this one would be a plausible number of milliseconds)
+				return int(t.UnixMilli()) + r.Intn(3)*3600
+			}
 			return int(t.Unix()) + r.Intn(3)*3600
 		}
 	}
